@@ -44,6 +44,9 @@ def pinch_analysis_service(data: Any, project_name: str = "Project", is_return_f
     """
     # Validate request data using Pydantic model
     request_data = TargetInput.model_validate(data)
+    # model_validate returns the caller's own instance when it is given a model: work on a private copy,
+    # the preparation step completes and rewrites stream / utility records in place
+    request_data = request_data.model_copy(deep=True)
 
     # Formulate the top level zone with all subzones and approperiate input data
     master_zone = prepare_problem(
